@@ -111,10 +111,14 @@ func (p *TMultiUDPTransport) Write(buff []byte) (int, error) {
 
 // Flush flushes the write buffer of the underlying transports
 func (p *TMultiUDPTransport) Flush() error {
+	// n.b. Flush every transport even if one of them fails, otherwise the
+	//      remaining ones keep the message buffered and send it glued to the
+	//      next one. The first error is returned.
+	var firstErr error
 	for _, trans := range p.transports {
-		if err := trans.Flush(); err != nil {
-			return err
+		if err := trans.Flush(); err != nil && firstErr == nil {
+			firstErr = err
 		}
 	}
-	return nil
+	return firstErr
 }
